@@ -1,6 +1,7 @@
 import Lean.Data.Json
 import Verif.Model.Schema
 import Verif.Gen.Schemas
+import Verif.Gen.Builders
 open Lean
 -- DRIVER: schema
 namespace Verif.Drv.Schema
@@ -62,6 +63,30 @@ def result (ty : Ty) (j : Verif.Model.Schema.Json) (r : Except String TVal) : Le
       ("tree", encTree (typeTree cfg v)),
       ("expected", enc (expected cfg ty j))] ++ spec)
 
+/-- type expressions in the introspection's JSON form: {"k":"str"} … {"k":"union","ts":[…]} {"k":"ref","cls":…} -/
+partial def decTy (j : Lean.Json) : Except String Ty := do
+  let k ← j.getObjValAs? String "k"
+  match k with
+  | "str" => pure .str
+  | "int" => pure .int
+  | "float" => pure .float
+  | "bool" => pure .bool
+  | "any" => pure .any
+  | "lit" => do
+    let vs ← j.getObjValAs? (List String) "vals"
+    pure (.lit vs)
+  | "opt" => do pure (.opt (← decTy (← j.getObjVal? "t")))
+  | "list" => do pure (.list (← decTy (← j.getObjVal? "t")))
+  | "dict" => do pure (.dict (← decTy (← j.getObjVal? "t")))
+  | "ref" => do pure (.ref (← j.getObjValAs? String "cls"))
+  | "union" => do
+    let ts ← j.getObjValAs? (List Lean.Json) "ts"
+    let tys ← ts.mapM decTy
+    match tys.reverse with
+    | [] => throw "empty union"
+    | last :: rest => pure (rest.foldl (fun acc t => .union t acc) last)
+  | _ => throw s!"unknown type kind {k}"
+
 def handle (j : Lean.Json) : Except String Lean.Json := do
   let op ← j.getObjValAs? String "op"
   let v ← dec (← j.getObjVal? "j")
@@ -81,6 +106,34 @@ def handle (j : Lean.Json) : Except String Lean.Json := do
     match validate cfg (.ref cls) v with
     | .error e => return Lean.Json.mkObj [("ok", .bool false), ("why", .str e)]
     | .ok tv => return Lean.Json.mkObj [("ok", .bool true), ("dump", enc (dump cfg byAlias exclNone tv))]
+  | "ty" =>
+    -- `_deep_validate` of a value against an arbitrary type expression (any value, conforming or not)
+    let t ← decTy (← j.getObjVal? "ty")
+    match validate cfg t v with
+    | .error e => return Lean.Json.mkObj [("ok", .bool false), ("why", .str e)]
+    | .ok tv => return Lean.Json.mkObj [("ok", .bool true), ("dump", enc (dump cfg true true tv)),
+        ("tree", encTree (typeTree cfg tv)), ("conforms", .bool (conforms cfg t v))]
+  | "build" =>
+    -- a `create_*` helper of Gen/Builders on keyword arguments (wire values)
+    let name ← j.getObjValAs? String "name"
+    let modn ← j.getObjValAs? String "module"
+    match Verif.Gen.Builders.builders.find? (fun b => b.name == name && b.module == modn), v with
+    | some b, .obj args =>
+      match b.run cfg args with
+      | .error e => return Lean.Json.mkObj [("ok", .bool false), ("why", .str e)]
+      | .ok tv => return Lean.Json.mkObj [("ok", .bool true), ("dump", enc (dump cfg true true tv)),
+          ("dumpPlain", enc (dump cfg false false tv)), ("tree", encTree (typeTree cfg tv))]
+    | none, _ => return Lean.Json.mkObj [("untranslated", .bool true)]
+    | _, _ => throw "arguments must be an object"
+  | "parseBy" =>
+    let name ← j.getObjValAs? String "name"
+    match Verif.Gen.Builders.parsers.find? (fun p => p.name == name) with
+    | some p =>
+      match p.run cfg v with
+      | .error e => return Lean.Json.mkObj [("ok", .bool false), ("why", .str e)]
+      | .ok tv => return Lean.Json.mkObj [("ok", .bool true), ("dump", enc (dump cfg true true tv)),
+          ("tree", encTree (typeTree cfg tv))]
+    | none => return Lean.Json.mkObj [("untranslated", .bool true)]
   | _ => throw s!"unknown op {op}"
 
 end Verif.Drv.Schema
